@@ -193,7 +193,11 @@ ASSUMPTIONS = ['the halo in cells does not exceed the raster height/width (docum
                'diagonal (the halo is max_distance in metres divided by the cell size in degrees: any useful finite value exceeds the '
                'raster, the documented Dask limitation); float16 is rejected by Numba']
 PARTIAL = [
-    'C07_chunked_eq_whole_full_statement (chunked = whole for the four-sweep HEURISTIC on every grid) is NOT claimed: the '
+    'C07_chunked_eq_whole_full_statement (chunked = whole for the four-sweep HEURISTIC on every grid) is NOT claimed and is in '
+    'fact FALSE: Example C07_chunked_neq_whole_witness (a 3x6 grid, max_distance sqrt 8, chunks (2,1)x(6)) - the implementation '
+    'shows the same Dask != NumPy difference there (known finding heuristic-window-dependence: a Dask/NumPy difference is '
+    'classified as that finding only if NumPy on the block extended by a correct halo reproduces the Dask values and the exact '
+    'nearest-target answer equals one of the two values; any other difference stays a violation); the '
     'heuristic is not an exact nearest-target algorithm and nothing forces its error to be chunk independent; it is proved '
     'under the hypothesis that block results are exact (C07_exact_blocks_chunked_eq_whole), checked by vm_compute on all '
     'layouts x chunkings up to 3x3 (C07_bounded_chunked_eq_whole_small), and searched for counter-examples with the '
@@ -210,7 +214,8 @@ LEVEL_TEXT = ('Proved in Coq for all inputs: the generated halo depth (rows <-> 
               'heuristic, every layout x every chunking x max_distance = 1 on grids up to 3x3 (and 3/2, 2 on grids with <= 6 cells): chunked = whole. '
               'The unbounded statement for the heuristic is not claimed. Correspondence: Dask vs NumPy vs the extracted '
               'block model on random chunkings.')
-LEVEL_NOTE = ('dask.array.map_overlap (halo exchange, NaN boundary, trimming, chunk merging) is modelled from its '
+LEVEL_NOTE = ('Dask and NumPy can differ through the window dependence of the sweep heuristic itself (recorded known finding with a '
+              'Coq witness); everything else that differs is reported. dask.array.map_overlap (halo exchange, NaN boundary, trimming, chunk merging) is modelled from its '
               'documentation, not verified; the halo expression, axis order, boundary value and fallback test are '
               'regenerated from the source by a fail-closed ast translator; float evaluation of the halo expression and the '
               'float32 distance chain are translated by the harness (checked per case for monotonicity).')
@@ -445,6 +450,115 @@ def first_diff(a, b):
     return None
 
 
+KEY_WINDOW = 'heuristic-window-dependence'
+
+
+def correct_halos(case):
+    """halo depths (rows, columns) that contain every cell within max_distance of a block, from the property text alone:
+    a cell k steps away along an axis is within reach iff k * cellsize <= max_distance, so floor(max_distance / cellsize) is the
+    least correct depth and rounding up to whole cells the other candidate; cell sizes from the coordinates themselves"""
+    md = case['max_distance']
+    if md in ('inf', None) or is_fallback(case):
+        return None
+    xs, ys = case['xs'], case['ys']
+    cx = abs(float(xs[-1]) - float(xs[0])) / (len(xs) - 1)
+    cy = abs(float(ys[-1]) - float(ys[0])) / (len(ys) - 1)
+    qy, qx = Fraction(float(md)) / Fraction(cy), Fraction(float(md)) / Fraction(cx)
+    return sorted({math.floor(qy), math.ceil(qy)}), sorted({math.floor(qx), math.ceil(qx)})
+
+
+def block_of(sizes, k):
+    start = 0
+    for sz in sizes:
+        if start <= k < start + sz:
+            return start, sz
+        start += sz
+    raise ValueError(k)
+
+
+def exact_answers(case, r, c):
+    """brute force: {function: set of acceptable values} for the truly nearest target within max_distance (NaN if none)"""
+    metric = case['metric']
+    md = case['max_distance']
+    md = INF if md in ('inf', None) else float(md)
+    data = c06.cast_data(case)
+    tv = c06.case_tv(case)
+    xs = [float(v) for v in case['xs']]
+    ys = [float(v) for v in case['ys']]
+    ds = [(c06.true_dist(metric, xs[c], ys[r], xs[tc], ys[tr]), tr, tc) for tr in range(len(data)) for tc in range(len(data[0]))
+          if c06.is_target_val(data[tr][tc], tv)]
+    ds = [x for x in ds if x[0] <= max(md, c06.f32(md))]
+    if not ds:
+        return None
+    dmin = min(x[0] for x in ds)
+    best = [x for x in ds if x[0] == dmin]
+    return {'proximity': [dmin], 'allocation': [c06.f32(data[tr][tc]) for _, tr, tc in best],
+            'direction': [c06.compass(xs[c], ys[r], xs[tc], ys[tr]) for _, tr, tc in best]}
+
+
+def agrees(name, v, exact):
+    if exact is None:
+        return math.isnan(v)
+    if math.isnan(v):
+        return False
+    if name == 'direction':
+        return any(abs(v - e) <= 1e-3 for e in exact[name])
+    return any(c06.same(v, e) for e in exact[name])
+
+
+def classify_differences(ctx, differing, pool):
+    """{case index: True iff every Dask/NumPy difference of the case is reproduced by NumPy on the cell's block extended by a
+    CORRECT halo (all computed outputs equal the Dask values there) and the exact answer agrees with one of the two values}"""
+    out, reqs, plan = {}, [], []
+    for i, (case, gn, gd, names) in differing.items():
+        out[i] = False
+        halos = correct_halos(case)
+        if halos is None:
+            continue
+        h, w = len(case['ys']), len(case['xs'])
+        cells = sorted({(r, c) for n in case['only'] for r in range(h) for c in range(w)
+                        if not c06.same(gn[n][r][c], gd[n][r][c])})
+        for hy in halos[0]:
+            for hx in halos[1]:
+                rch = effective_chunks(case['chunks'][0], hy)
+                cch = effective_chunks(case['chunks'][1], hx)
+                blocks = sorted({(block_of(rch, r), block_of(cch, c)) for r, c in cells})
+                if len(blocks) > 4:
+                    continue
+                for (r0, hr), (c0, wc) in blocks:
+                    ra, rb = max(0, r0 - hy), min(h, r0 + hr + hy)
+                    ca, cb = max(0, c0 - hx), min(w, c0 + wc + hx)
+                    if rb - ra < 2 or cb - ca < 2:
+                        continue
+                    sub = dict(case, data=[row[ca:cb] for row in case['data'][ra:rb]], xs=case['xs'][ca:cb], ys=case['ys'][ra:rb])
+                    if case.get('data_int') is not None:
+                        sub['data_int'] = [row[ca:cb] for row in case['data_int'][ra:rb]]
+                    sub.pop('res', None)
+                    reqs.append({'op': 'numpy3', 'case': sub, 'only': case['only']})
+                    plan.append((i, (hy, hx), (r0, hr, c0, wc), (ra, ca)))
+    if not reqs:
+        return out
+    res = pool.map(reqs)
+    explained = {}                               # (case, halo) -> set of cells reproduced
+    for (i, halo, (r0, hr, c0, wc), (ra, ca)), r_ in zip(plan, res):
+        case, gn, gd, names = differing[i]
+        g, _ = c06.canon_impl(r_)
+        if any(n not in g for n in case['only']):
+            continue
+        for r in range(r0, r0 + hr):
+            for c in range(c0, c0 + wc):
+                if all(c06.same(g[n][r - ra][c - ca], gd[n][r][c]) for n in case['only']):
+                    explained.setdefault((i, halo), set()).add((r, c))
+    for i, (case, gn, gd, names) in differing.items():
+        h, w = len(case['ys']), len(case['xs'])
+        cells = {(r, c) for n in case['only'] for r in range(h) for c in range(w) if not c06.same(gn[n][r][c], gd[n][r][c])}
+        ok_exact = all(all(agrees(n, gn[n][r][c], ex) for n in case['only']) or all(agrees(n, gd[n][r][c], ex) for n in case['only'])
+                       for (r, c) in cells for ex in [exact_answers(case, r, c)])
+        if ok_exact and any(k[0] == i and cells <= v for k, v in explained.items()):
+            out[i] = True
+    return out
+
+
 def check_cases(ctx, cases, pool, use_model=True):
     reqs = []
     for c in cases:
@@ -452,6 +566,7 @@ def check_cases(ctx, cases, pool, use_model=True):
         reqs.append({'op': 'dask3', 'case': c, 'chunks': c['chunks'], 'only': c['only']})
     res = pool.map(reqs)
     lines, idx = [], []
+    differing = {}
     for i, case in enumerate(cases):
         rn, rd = res[2 * i], res[2 * i + 1]
         ctx.case(case, nontrivial=nontrivial(case))
@@ -479,13 +594,10 @@ def check_cases(ctx, cases, pool, use_model=True):
                               dict(case, function=name), key=None)
                 bad = True
             elif not grids_equal(gn[name], gd[name]):
-                r, c, p, q = first_diff(gn[name], gd[name])
-                ctx.violation('oracle', 'Dask %s differs from NumPy at cell (%d,%d): numpy %r, dask %r '
-                              '[chunks %r, max_distance %r, metric %s]' % (name, r, c, p, q, case['chunks'],
-                                                                           case['max_distance'], case['metric']),
-                              dict(case, function=name, cell=[r, c], numpy=p, dask=q),
-                              key=KEY_INTCOORDS if intcoords_class(case) else None)
+                differing.setdefault(i, (case, gn, gd, []))[3].append(name)
                 bad = True
+        if i in differing and not any(n not in gn or n not in gd for n in case['only']):
+            continue                      # decided below (window classification), incl. the model comparison
         if bad or not use_model or case.get('no_model'):
             continue
         try:
@@ -494,6 +606,25 @@ def check_cases(ctx, cases, pool, use_model=True):
             idx.append((case, gd, pads))
         except ValueError as e:
             ctx.notes.append('case skipped for the model (%s)' % e)
+    # Dask != NumPy: an ordinary violation unless the WINDOW alone explains it (known finding heuristic-window-dependence)
+    for i, known in classify_differences(ctx, differing, pool).items():
+        case, gn, gd, names = differing[i]
+        for name in names:
+            r, c, p, q = first_diff(gn[name], gd[name])
+            key = KEY_WINDOW if known else (KEY_INTCOORDS if intcoords_class(case) else None)
+            ctx.violation('oracle', 'Dask %s differs from NumPy at cell (%d,%d): numpy %r, dask %r '
+                          '[chunks %r, max_distance %r, metric %s]%s' % (
+                              name, r, c, p, q, case['chunks'], case['max_distance'], case['metric'],
+                              ' - NumPy on the block extended by the correct halo gives the Dask value: window dependence '
+                              'of the sweep heuristic' if known else ''),
+                          dict(case, function=name, cell=[r, c], numpy=p, dask=q), key=key)
+        if known and use_model and not case.get('no_model'):
+            try:
+                line, pads = model_line(case)
+                lines.append(line)
+                idx.append((case, gd, pads))
+            except ValueError as e:
+                ctx.notes.append('case skipped for the model (%s)' % e)
     if ctx.model is not None and lines:
         outs = ctx.model.run(lines)
         for (case, gd, pads), mo in zip(idx, outs):
@@ -697,6 +828,13 @@ def check_pairs(ctx, pairs, pool):
                 break
 
 
+WINDOW_CASE = dict(fn='dask', layout='heuristic-window-dependence', metric='EUCLIDEAN',
+                   data=[[1., 6., 0., -3., 2., 6.], [2., 0., 5., 0., 0., 0.], [7., 4., 0., 0., 0., 0.]], dtype='int8',
+                   xs=[-4, -3, -2, -1, 0, 1], ys=[0, 2, 4], cdtype='float64', ykind='asc', xkind='asc', tv=[], mode='default',
+                   max_distance=2.8284271247461903, chunks=[[2, 1], [2, 4]], scheduler='threads',
+                   only=['proximity', 'allocation', 'direction'])
+
+
 def theme_cases(ctx):
     """appended stream (theme audit): memory layout of the array handed to dask, fractional cell sizes (oracle only),
     float32 / int32 coordinates, degenerate rasters (all NaN, 2x2 in 1-cell chunks), exact ids beyond 2**53"""
@@ -813,7 +951,7 @@ def run(ctx):
         check_edges(ctx, edge_cases(ctx), pool)
         # appended last: earlier draws stay as they were
         tc = theme_cases(ctx)
-        check_cases(ctx, tc, pool)
+        check_cases(ctx, tc + [dict(WINDOW_CASE)], pool)
         check_pairs(ctx, [p + ('reverse',) for p in pair_cases(ctx)[:1]], pool)
     finally:
         pool.close()
